@@ -73,6 +73,7 @@ type Options struct {
 	MaxPoints int64 // 0 => default
 	SelChoice bool  // branch on which ready select case fires
 	TraceSync bool
+	StartNow  int64 // initial virtual time (ns since Base)
 }
 
 type RT struct {
@@ -112,7 +113,7 @@ func Run(opt Options, root func()) *RT {
 	if opt.MaxPoints == 0 {
 		opt.MaxPoints = defaultMaxPoints
 	}
-	rt := &RT{opt: opt, finished: make(chan struct{}, 1), exited: make(chan struct{}, 4096), hooks: map[string][]func(){}, Locals: map[string]interface{}{}}
+	rt := &RT{now: opt.StartNow, opt: opt, finished: make(chan struct{}, 1), exited: make(chan struct{}, 4096), hooks: map[string][]func(){}, Locals: map[string]interface{}{}}
 	if R != nil {
 		panic("vrt: nested Run")
 	}
